@@ -445,7 +445,7 @@ func driveMain(args []string) {
 			continue // batch not part of this tier
 		}
 		if b.Bin == "fg" && b.Runs == 0 {
-			b.Runs = 600
+			b.Runs = 500
 		}
 		b.Runs = int(float64(b.Runs) * *scale)
 		if b.Runs < 1 {
